@@ -32,6 +32,8 @@ def build(spec):
                 setattr(o, f, datetime(*v[1]))
             elif isinstance(v, tuple) and v and v[0] == "strs":
                 setattr(o, f, list(v[1]))
+            elif isinstance(v, tuple) and v and v[0] == "coords":
+                setattr(o, f, [tuple(c) for c in v[1]])
             else:
                 setattr(o, f, v)
     return objs
@@ -116,9 +118,25 @@ def family_alt_parent(tier, no_repeats=False):
     return out
 
 
+def family_drawing(tier, no_repeats=False):
+    """several alternatively mapped objects whose mapping builds fresh mapped objects during the conversion"""
+    out = []
+    for nlines in (1, 2, 3, 4):
+        for npts in (0, 1, 2, 3):
+            for best in (None, "l0"):
+                nodes = []
+                for i in range(nlines):
+                    coords = tuple((100.0 * i + j, -(100.0 * i + j)) for j in range(npts))
+                    nodes.append((f"l{i}", "OPoly", (("name", f"line{i}"), ("coords", ("coords", coords)))))
+                lines = tuple(f"l{i}" for i in range(nlines))
+                nodes.append(("d0", "ODrawing", (("title", "d"), ("lines", ("list", lines)), ("best", ("ref", best)))))
+                out.append(tuple(nodes))
+    return out
+
+
 def all_specs(tier, no_repeats=False):
     return (family_items_holders(tier, no_repeats) + family_vec_carrier(tier, no_repeats)
-            + family_alt_parent(tier, no_repeats))
+            + family_alt_parent(tier, no_repeats) + family_drawing(tier, no_repeats))
 
 
 def show(spec):
